@@ -12,17 +12,20 @@ Theorem C01_refuted_F01a :
 Proof. exact refuted_F01a. Qed.
 Print Assumptions C01_refuted_F01a.
 
-Theorem C01_refuted_F01b :
+(* F01b is fixed (optional forward references are now quoted as a whole); what remains is a fact about the
+   import-semantics model: a package with `"Node" | None` in a class body does not import *)
+Theorem C01_model_rejects_str_or_none :
   c_no_str_or w_F01b = false /\ c_acyclic w_F01b = true /\
   failed_with (ex w_F01b [n_p; n_models; n_node]) EType.
 Proof. exact refuted_F01b. Qed.
-Print Assumptions C01_refuted_F01b.
+Print Assumptions C01_model_rejects_str_or_none.
 
-Theorem C01_refuted_F01c :
+(* F01c is fixed (such fields get a trailing underscore); model fact: a default bound before its own annotation shadows it *)
+Theorem C01_model_rejects_shadowing_default :
   c_no_shadow w_F01c = false /\ c_no_str_or w_F01c = true /\ c_acyclic w_F01c = true /\
   failed_with (ex w_F01c [n_p; n_models; n_ev]) EType.
 Proof. exact refuted_F01c. Qed.
-Print Assumptions C01_refuted_F01c.
+Print Assumptions C01_model_rejects_shadowing_default.
 
 Theorem C01_refuted_F06d :
   c_static builtin_names w_F06d = false /\ c_closed w_F06d = true /\ c_acyclic w_F06d = true /\
@@ -30,16 +33,18 @@ Theorem C01_refuted_F06d :
 Proof. exact refuted_F06d. Qed.
 Print Assumptions C01_refuted_F06d.
 
-(* F01e, F13b, F20a, F04c: the emitted file does not compile; in the model that is the statement Broken *)
-Theorem C01_refuted_syntax_F01e_F13b_F20a_F04c :
+(* a file that does not compile is the statement Broken in the model: the class of the open findings F13b, F04c
+   (F01e, F20a, F01g were of this class and are fixed; their documents are regression cases) *)
+Theorem C01_refuted_syntax_F13b_F04c :
   c_parses w_syntax = false /\ failed_with (ex w_syntax [n_p; n_mocks]) ESyntax.
 Proof. exact refuted_syntax. Qed.
-Print Assumptions C01_refuted_syntax_F01e_F13b_F20a_F04c.
+Print Assumptions C01_refuted_syntax_F13b_F04c.
 
-Theorem C01_refuted_F01f :
+(* F01f is fixed (complete module paths are no longer rewritten); model fact: importing a module that is not emitted fails *)
+Theorem C01_model_rejects_missing_module :
   c_closed w_F01f = false /\ failed_with (ex w_F01f [n_dup; n_dup; n_ep]) ENotFound.
 Proof. exact refuted_F01f. Qed.
-Print Assumptions C01_refuted_F01f.
+Print Assumptions C01_model_rejects_missing_module.
 
 Theorem C01_guard_nonvacuous :
   pkg_ok builtin_names w_good = true /\
